@@ -8,6 +8,7 @@ R12.6  the post-processor never receives the runtime copies (file lists are filt
 R12.7  RenderContext never "completes" a module path of the core package (root or sub-module) into the client package       [= R1.11]
 R12.8  the post-processor's tools are given files, never directories (a directory would take the runtime copies with it)          [= R10.7]
 R12.9  the non-force comparison covers every generated file, the runtime copies included                                          [= R9.4]
+R12.10 no call in a runtime file takes a string naming the generator (`importlib.metadata.version("pyopenapi-gen")`, `import_module(...)`, `resources.files(...)`)
 R12.4  import registrations (add_import & co.): module argument never names the generator or a foreign package
 R12.5  import statements embedded in templates obey the same allow-list
 """
@@ -174,6 +175,31 @@ def run(repo: Repo, rep: Report, tier: str) -> None:
                           f"src/pyopenapi_gen/emitters/core_emitter.py:{line}")
         else:
             rep.ok("R12.2", sub + " destination", f"copied to {dst}", f"src/pyopenapi_gen/emitters/core_emitter.py:{line}")
+
+    # ---------------------------------------------------------------- R12.10 the payload never looks the generator up by name
+    # `importlib.metadata.version("pyopenapi-gen")`, `importlib.resources.files("pyopenapi_gen.core")`, `import_module("pyopenapi_gen...")`,
+    # `find_spec(...)`: no import statement names the generator, yet the call fails (PackageNotFoundError / ModuleNotFoundError) in an
+    # interpreter where only the emitted package is installed.  Decided: no call in a runtime file takes a string constant naming the generator.
+    n_rt_calls = 0
+    for name, mod in sorted(rt_modules.items()):
+        hits = []
+        for c in ast.walk(mod.tree):
+            if not isinstance(c, ast.Call):
+                continue
+            n_rt_calls += 1
+            for a_ in list(c.args) + [k.value for k in c.keywords]:
+                v = const_str(a_)
+                if v is not None and re.match(r"^pyopenapi[-_]gen(\b|$)", v.strip().lower()):
+                    hits.append((c, v))
+        sub = f"{mod.relpath} calls that name the generator distribution / package"
+        if hits:
+            c, v = hits[0]
+            rep.violation("R12.10", sub, f"{mod.name}|generator-looked-up-by-name|{(dotted(c.func) or '?').split('.')[-1]}",
+                          f"`{norm(c)[:70]}`: the shipped runtime module asks for `{v}` at run time - in an interpreter where only the emitted package (httpx, cattrs) is installed "
+                          "this raises and the request / import fails, although no import statement mentions the generator", f"{mod.relpath}:{c.lineno}")
+        else:
+            rep.ok("R12.10", sub, "no call argument names the generator", f"{mod.relpath}:1")
+    rep.require(n_rt_calls >= 100, f"R12.10: only {n_rt_calls} calls found in the runtime files (floor 100)")
 
     # ---------------------------------------------------------------- R12.1 / R12.2 imports of payload
     n_imports = 0
